@@ -5,11 +5,14 @@ import (
 	"fmt"
 	"io"
 	"math"
+	"os"
 	"os/exec"
 	"strconv"
 	"strings"
 	"time"
 )
+
+var logSeq int
 
 type Result int
 
@@ -82,6 +85,11 @@ func (s *Solver) start() error {
 	cmd.Stderr = cmd.Stdout
 	if err := cmd.Start(); err != nil {
 		return err
+	}
+	if d := os.Getenv("VERIF_SMTLOG"); d != "" && s.Log == nil {
+		logSeq++
+		f, _ := os.Create(fmt.Sprintf("%s/solver-%d-%d.smt2", d, os.Getpid(), logSeq))
+		s.Log = f
 	}
 	s.cmd, s.in, s.out = cmd, in, bufio.NewReaderSize(out, 1<<16)
 	s.defined = map[*Term]bool{}
